@@ -266,7 +266,14 @@ def coord_dtypes():
     return st.sampled_from(["f64", "f64", "f64", "f32", "int-dir", "f32-dir"])
 
 
-def build_dataarray(fg, dg, specs, dims, dtype="float64", winds=None, lived=None, cdtype=None):
+def perms():
+    """Strategy for the `perm` field: None (canonical order: leading dims, freq, dir) or a seed for another storage order."""
+    from hypothesis import strategies as st
+
+    return st.one_of(st.none(), st.none(), st.none(), st.integers(0, 1000))
+
+
+def build_dataarray(fg, dg, specs, dims, dtype="float64", winds=None, lived=None, cdtype=None, perm=None):
     """DataArray (*dims, freq, dir) in C order. `specs`: one spectrum spec per position (row-major)."""
     import pandas as pd
     import xarray as xr
@@ -307,6 +314,11 @@ def build_dataarray(fg, dg, specs, dims, dtype="float64", winds=None, lived=None
     if d is not None and cdtype == "int-dir" and np.all(d == np.round(d)):
         coords["dir"] = d.astype("int64")
     da = xr.DataArray(np.ascontiguousarray(data), coords=coords, dims=names, name="efth")
+    if perm is not None and len(names) > 1:
+        # the same labelled data stored with its dimensions in another order (spectral dimensions need not come last)
+        order = [names[i] for i in np.random.RandomState(perm).permutation(len(names))]
+        tr = da.transpose(*order)
+        da = tr.copy(data=np.ascontiguousarray(tr.values))
     if lived is not None:
         live_a_life(da, lived)
     return da
